@@ -470,24 +470,25 @@ def eng_true(eng, cond):
 
 def jobs(tier):
     js = [Job("cayley-bfs", job_cayley, dict(nmax=6 if tier == "quick" else 7), "swap_distance", 900)]
-    for n in (2, 3, 4, 5, 6) + ((7,) if tier == "thorough" else ()):
+    # n = 7 was measured: 4 of 429 paths end in solver timeouts (2379 s) - not claimed; the BFS job covers n = 7 by enumeration
+    for n in (2, 3, 4, 5, 6):
         js.append(Job(f"swap/n{n}", job_swap, dict(n=n, timeout_s=900 if n <= 5 else 3000), "swap_distance", 1000 if n <= 5 else 3300, weight=n))
     js.append(Job("rank-selftest", job_rank_selftest, dict(seed=0), "flows", 600))
-    for n, power, horizon in ((3, 1, 100), (3, 2, 1), (3, 3, 2), (4, 2, 100), (4, 1, 2)) + (((4, 3, 2), (5, 2, 100), (5, 1, 2), (4, 2, 1)) if tier == "thorough" else ()):
+    for n, power, horizon in ((3, 1, 100), (3, 2, 1), (3, 3, 2), (4, 2, 100), (4, 1, 2)) + (((4, 3, 2), (5, 2, 1), (4, 2, 1), (4, 3, 100), (4, 1, 1)) if tier == "thorough" else ()):
         js.append(Job(f"flows/n{n}/p{power}/h{horizon}", job_flows, dict(n=n, power=power, horizon=horizon), "flows", 1800, weight=n))
-    for m in (2, 3, 4, 5, 6) + ((7,) if tier == "thorough" else ()):
+    for m in (2, 3, 4, 5, 6) + ((7, 8) if tier == "thorough" else ()):
         js.append(Job(f"from-sequence/m{m}", job_from_sequence, dict(m=m, timeout_s=900 if m <= 4 else 3000), "from_sequence", 1000 if m <= 4 else 3300, weight=m))
     return js
 
 
 def meta(tier):
     return dict(
-        bounds=dict(swap_distance="all pairs of symbolic permutations of length <= 6 (thorough 7): result == n - #cycles(p2 o p1^-1), cycles counted declaratively; "
-                                  "Cayley (n - cycles = minimum number of transpositions) re-confirmed by exhaustive BFS for n <= 6 - that half is enumeration, not a solver verdict",
-                    flows="Instance.__init__ on a symbolic symmetric distance matrix of 3-4 (thorough 5) objects (entries 1..50), integer flow powers 1..3, horizons 1, 2 and unbounded: zero diagonal, zero beyond the horizon, "
+        bounds=dict(swap_distance="all pairs of symbolic permutations of length <= 6: result == n - #cycles(p2 o p1^-1), cycles counted declaratively; "
+                                  "Cayley (n - cycles = minimum number of transpositions) re-confirmed by exhaustive BFS for n <= 6 (thorough 7) - that half is enumeration, not a solver verdict",
+                    flows="Instance.__init__ on a symbolic symmetric distance matrix of 3-4 objects (entries 1..50; thorough: also 5 objects with horizon 1), integer flow powers 1..3, horizons 1, 2 and unbounded: zero diagonal, zero beyond the horizon, "
                           "equal flows for equally distant neighbours, never a smaller flow for a nearer neighbour, |i-j| distances (scipy rankdata replaced by its declarative definition, validated against scipy per run)",
-                    from_sequence="<= 6 (thorough 7) abstract objects, symbolic symmetric distance table with triangle inequality"),
-        outside=["non-integer flow powers; more than 4 (thorough 5) objects in the flow construction", 
+                    from_sequence="<= 6 (thorough 8) abstract objects, symbolic symmetric distance table with triangle inequality"),
+        outside=["non-integer flow powers; more than 4 objects in the flow construction (5 objects only with horizon 1, thorough; 5 objects with larger horizons and swap distance for n = 7 ended in solver timeouts when measured and are not claimed)", 
                  "distance functions that are not pseudo-metrics"],
         assumptions=["np.argsort of a permutation is its inverse", "get_distance is symmetric, non-negative and satisfies the triangle inequality"],
         stubs=["scipy.stats.rankdata -> declarative average-rank model; round()/int() of reals -> nearest/truncated integer; QAP base constructor -> recorder", "Instance constructor replaced by a recorder of (distances, tags) inside from_sequence_and_distance", "np.array(list) keeps the nested lists", "isfinite -> True for symbolic integers"])
